@@ -15,7 +15,6 @@ package h_routes
 import (
 	"fmt"
 	"net"
-	"os"
 	"sort"
 	"strings"
 	"syscall"
@@ -167,18 +166,13 @@ type world struct {
 	pMid           int
 	connFails      int
 	eintrBurst     int
+	replaceStuck   map[string]bool
 	ctCalls        int
 }
 
 type delRec struct {
 	canon string
 	oif   int
-}
-
-func tolerate(what string) bool {
-	// exploration aid only (never set by ./check): look past an already
-	// reported defect class so that the rest of the state space stays reachable
-	return strings.Contains(os.Getenv("VERIF_ROUTES_TOLERATE"), what)
 }
 
 func (w *world) now() time.Time { return w.mt.Now() }
@@ -589,10 +583,29 @@ func (n *nlWrap) RouteListFilteredIter(family int, filter *netlink.Route, mask u
 }
 
 func (n *nlWrap) RouteReplace(rt *netlink.Route) error {
+	err := n.routeReplace(rt)
+	if err != nil {
+		n.w.noteReplaceFailed(mocknetlink.KeyForRoute(rt))
+	}
+	return err
+}
+
+func (n *nlWrap) routeReplace(rt *netlink.Route) error {
 	w := n.w
 	w.call("RouteReplace")
 	w.maybeMidApplyChange()
+	stuckKey := mocknetlink.KeyForRoute(rt)
+	if w.replaceStuck[stuckKey] {
+		// the kernel keeps rejecting this particular route for the rest of this Apply
+		w.r.Fault("route_replace")
+		w.dp.FailuresToSimulate |= mocknetlink.FailNextRouteReplace
+		return n.Interface.RouteReplace(rt)
+	}
 	if w.fault("route_replace") {
+		if w.inApply && w.r.Src.Chance(400, "replace_sticky") {
+			w.replaceStuck[stuckKey] = true
+			w.r.Probe("route_replace_failed_persistently")
+		}
 		w.dp.FailuresToSimulate |= mocknetlink.FailNextRouteReplace
 		return n.Interface.RouteReplace(rt)
 	}
@@ -618,6 +631,14 @@ func (n *nlWrap) RouteReplace(rt *netlink.Route) error {
 		delete(w.felixDeleted, key)
 	}
 	return err
+}
+
+// noteReplaceFailed counts the window the early-cleanup path opens: Felix has
+// deleted a route itself and the replacement did not go in.
+func (w *world) noteReplaceFailed(key string) {
+	if _, ok := w.felixDeleted[key]; ok {
+		w.r.Probe("own_delete_then_replace_failed")
+	}
 }
 
 func (n *nlWrap) RouteDel(rt *netlink.Route) error {
@@ -1053,16 +1074,6 @@ func (w *world) exactOpt(allowGrace, skipUnsettled bool) (string, string) {
 	unsettledKey := map[string]bool{}
 	if skipUnsettled {
 		ui := w.unsettledIfaces()
-		if tolerate("rescan") {
-			for n := range w.rescanLost {
-				ui[n] = true
-			}
-		}
-		if tolerate("earlydelete") {
-			for k := range w.felixDeleted {
-				unsettledKey[k] = true
-			}
-		}
 		for k := range w.staleKeys {
 			unsettledKey[k] = true
 		}
@@ -1173,11 +1184,13 @@ func (w *world) apply(tag string) error {
 	w.callBudget = 200 + 40*(nRoutes+nDes+len(w.devices))
 	w.calls = 0
 	w.inApply, w.changedInApply = true, false
+	w.replaceStuck = map[string]bool{}
 	w.seg = w.snapshotNonOwned()
 	var err error
 	w.sut(func() { err = w.rt.Apply() })
 	w.checkSegment("end of " + tag)
 	w.inApply = false
+	w.replaceStuck = map[string]bool{}
 	w.downSince = map[string]bool{}
 	if err != nil {
 		w.r.Probe("apply_returned_error")
@@ -1239,7 +1252,7 @@ func run(r *core.R) {
 	r.FaultDecl("kernel_change_during_apply", "notification_lost", "oob_delete_owned_route", "oob_delete_foreign_route", "oob_add_owned_looking_route", "oob_add_foreign_route")
 	r.ProbeDecl("apply_ok", "apply_returned_error", "exact_check_in_chaos", "exact_check_keys", "exact_check_skipped_unsettled_key", "link_bounced", "conflict_resolved_by_class", "conflict_fallback_better_class_link_down",
 		"grace_period_kept_unknown_route", "foreign_route_replaced_by_desired", "flap_without_apply_between", "link_renumbered",
-		"kernel_rejected_absent_link", "kernel_rejected_down_link", "route_del_esrch", "eintr_burst_armed", "socket_reopened",
+		"kernel_rejected_absent_link", "kernel_rejected_down_link", "route_del_esrch", "eintr_burst_armed", "route_replace_failed_persistently", "own_delete_then_replace_failed", "socket_reopened",
 		"full_listing_ok", "iface_listing_ok", "iface_listing_failed", "kernel_change_during_apply", "start_state_stale_owned_routes",
 		"start_state_foreign_routes", "sut_used_closed_netlink_handle", "converged_after_1", "converged_after_2", "converged_after_3", "conntrack_cleanup_called", "ipv6_run")
 
@@ -1272,7 +1285,7 @@ func run(r *core.R) {
 		}
 	}
 	w.staticARP = !w.v6 && r.Src.Chance(400, "cfg_static_arp")
-	conntrackOn := r.Src.Chance(500, "cfg_conntrack")
+	conntrackOn := r.Src.Chance(700, "cfg_conntrack")
 	nWl := r.Src.Range(1, 4, "cfg_workloads")
 	for i := 0; i < nWl; i++ {
 		w.workloads = append(w.workloads, fmt.Sprintf("cali%d", i))
@@ -1319,12 +1332,12 @@ func run(r *core.R) {
 	}
 	// op mix presets: 0 balanced, 1 interface churn heavy, 2 desired-state heavy, 3 foreign-edit heavy
 	mix := r.Src.Intn(4, "cfg_mix")
-	//                 apply upd rem set link notify oob resync time resyncIface settle
+	//                 apply upd rem set link notify oob resync time resyncIface settle revert
 	weights := [][]int{
-		{14, 18, 8, 8, 10, 14, 8, 4, 6, 2, 6},
-		{12, 12, 5, 5, 22, 20, 4, 4, 6, 4, 8},
-		{12, 26, 12, 14, 6, 10, 4, 4, 4, 2, 6},
-		{14, 14, 6, 6, 8, 10, 22, 6, 6, 2, 8},
+		{14, 18, 6, 8, 10, 14, 8, 4, 6, 2, 6, 6},
+		{12, 12, 4, 5, 22, 20, 4, 4, 6, 4, 8, 5},
+		{12, 26, 8, 14, 6, 10, 4, 4, 4, 2, 6, 10},
+		{14, 14, 4, 6, 8, 10, 22, 6, 6, 2, 8, 6},
 	}[mix]
 	var clNames []string
 	for _, cs := range w.classes {
@@ -1421,6 +1434,12 @@ func run(r *core.R) {
 	})
 
 	// ---- chaos phase
+	type updRec struct {
+		cs    classSpec
+		iface string
+		key   routetable.RouteKey
+	}
+	var lastUpd *updRec
 	for i := 0; i < nops; i++ {
 		op := r.Src.Weighted(weights, "op")
 		switch op {
@@ -1453,6 +1472,7 @@ func run(r *core.R) {
 			r.Op("RouteUpdate %s %s %s", cs.name, iface, tgtStr(t))
 			w.modelSet(cs.rank, iface, w.keyOf(t.CIDR, t.Priority), t)
 			w.sut(func() { w.rt.RouteUpdate(cs.class, w.sutIface(iface), t) })
+			lastUpd = &updRec{cs, iface, t.RouteKey}
 		case 2:
 			cs, iface := w.pickClassIface()
 			have := core.SortedKeys(w.desired[cs.rank][iface])
@@ -1509,6 +1529,19 @@ func run(r *core.R) {
 			r.Op("advance time %v", d)
 			w.mt.IncrementTime(d)
 			r.AddSimTime(d)
+		case 11:
+			// short-lived route: whatever was announced last is withdrawn again
+			if lastUpd == nil {
+				r.Op("revert (nothing to revert)")
+				break
+			}
+			u := lastUpd
+			lastUpd = nil
+			r.Op("revert: RouteRemove %s %s %s prio=%d", u.cs.name, u.iface, u.key.CIDR, u.key.Priority)
+			if m := w.desired[u.cs.rank][u.iface]; m != nil {
+				delete(m, w.keyOf(u.key.CIDR, u.key.Priority))
+			}
+			w.sut(func() { w.rt.RouteRemove(u.cs.class, w.sutIface(u.iface), u.key) })
 		case 9:
 			name := w.devices[r.Src.Intn(len(w.devices), "resync_iface")]
 			r.Op("QueueResyncIface %s", name)
